@@ -9,7 +9,7 @@
    [expect f idx a] is the message a reader has to deliver for it (every header field and payload byte);
    [markers_only_at_starts]: neither "DLT\x01" nor "DLS\x01" starts anywhere but at the message starts. *)
 From Coq Require Import List NArith Bool Lia.
-From AdltV Require Import Base.Res Base.MachInt Dlt.Frame Dlt.FrameProofs Dlt.Iter Dlt.IterProofs Dlt.IterTotal.
+From AdltV Require Import Base.Res Base.MachInt Dlt.Frame Dlt.FrameProofs Dlt.Iter Dlt.IterProofs Dlt.IterTotal Dlt.IterReader.
 Import ListNotations.
 Open Scope N_scope.
 
@@ -113,6 +113,24 @@ Proof. exact (run_iter_total start data). Qed.
 Theorem C01_run_terminates (start : N) (data : bytes) : run_iter start data <> OutOfFuel.
 Proof. exact (run_iter_terminates start data). Qed.
 
+(* an incomplete storage-header message (valid header, >= 20 bytes in view, fewer than its length field announces)
+   stops the iterator whether or not the storage framing is latched (/repo commit 9045554; before it a fresh
+   iterator skipped on byte by byte and recognised frames inside/behind it while a latched one stopped).
+   Witness of the repaired position dependence: 20-byte frame ++ header announcing 0x2004 bytes ++ 24-byte frame. *)
+Theorem C01_incomplete_storage_frame_stops (fuel : nat) (st : ist) (d : bytes) (k : N) :
+  i_det_serial st = false -> 20 <= blen d -> parse_storage (i_index st) d = PNotEnough k ->
+  next (S fuel) st d = Ok (None, st, d).
+Proof. exact (incomplete_storage_frame_stops fuel st d k). Qed.
+
+Definition short_frame_suffix : bytes :=
+  [68; 76; 84; 1; 0; 0; 0; 0; 0; 0; 0; 0; 69; 67; 85; 49; 32; 0; 32; 4] ++
+  [68; 76; 84; 1; 0; 0; 0; 0; 0; 0; 0; 0; 69; 67; 85; 49; 32; 1; 0; 8; 9; 9; 9; 9].
+Definition short_frame_prefix : bytes := [68; 76; 84; 1; 0; 0; 0; 0; 0; 0; 0; 0; 69; 67; 85; 49; 32; 0; 0; 4].
+Example C01_incomplete_storage_frame_witness :
+  (exists m st, run_iter 0 (short_frame_prefix ++ short_frame_suffix) = Ok ([m], st, short_frame_suffix)) /\
+  run_iter 1 short_frame_suffix = Ok ([], ist_new 1, short_frame_suffix).
+Proof. split; [eexists; eexists; vm_compute; reflexivity|vm_compute; reflexivity]. Qed.
+
 (* the boolean form of the marker hypothesis used by the examples is sound *)
 Theorem C01_markers_check_sound (f : framing) (segs : list seg) (gfin : bytes) :
   markers_only_at_startsb f segs gfin = true -> markers_only_at_starts f segs gfin.
@@ -139,6 +157,76 @@ Proof.
   - vm_compute. reflexivity.
   - vm_compute. reflexivity.
   - eexists. vm_compute. reflexivity.
+Qed.
+
+(* the iterator as the crate wires it: over ANY buffering reader (state R, fill_buf, consume; [rem r] = the input a
+   Cursor would still show) whose every fill_buf shows a prefix of the remaining input that is either all of it or
+   at least [low] bytes long -- LowMarkBufReader's contract, Properties/C04.v C04_lookahead -- with
+   low >= 16 + 65535 = a storage-framed message of maximum length: the recovery theorem holds unchanged.  This is the
+   hypothesis DLT_MAX_STORAGE_MSG_SIZE has to meet; the correspondence check compares the crate's constant with
+   this bound (Exec/C01.v wiring_ok). *)
+Theorem C01_iter_recovers_all_any_reader
+    (R : Type) (fill : R -> R * bytes) (consume : N -> R -> R) (rem : R -> bytes) (low : N)
+    (fill_spec : forall r, rem (fst (fill r)) = rem r /\ window_ok low (rem r) (snd (fill r)))
+    (consume_spec : forall r n, n <= blen (snd (fill r)) -> rem (consume n (fst (fill r))) = skipn (N.to_nat n) (rem r))
+    (f : framing) (start : N) (segs : list seg) (gfin : bytes) (r0 : R) :
+  16 + 65535 <= low ->
+  rem r0 = stream f segs gfin ->
+  Forall (fun s => wf_amsg (snd s)) segs ->
+  markers_only_at_starts f segs gfin ->
+  start + N.of_nat (length segs) <= u32max ->
+  let n := S (length (stream f segs gfin)) in
+  exists st r',
+    drain_gen R fill consume false n n (ist_new start) r0 = Ok (expect_list f start segs, st, r') /\
+    (exists consumed, gfin = consumed ++ rem r') /\
+    blen (rem r') < min_size f /\
+    i_index st = start + N.of_nat (length segs) /\
+    i_skipped st + blen (rem r') = garbage_total segs + blen gfin /\
+    i_processed st + blen (rem r') = blen (stream f segs gfin) /\
+    i_processed st <= blen (stream f segs gfin).
+Proof.
+  intros Hlow.
+  assert (Hmin : MIN_DLT_MSG_SIZE <= low) by (unfold MIN_DLT_MSG_SIZE; lia).
+  exact (iter_recovers_all_any_reader R fill consume rem low Hmin fill_spec consume_spec f start segs gfin r0 Hlow).
+Qed.
+
+(* the bound is tight: a reader that keeps the same contract with low = 16 + 65535 - 1 (shows 65550 bytes when more
+   remain) loses a maximum-length message and everything after it -- 1 of 3 messages is yielded *)
+Definition short_fill (r : bytes) : bytes * bytes := (r, if 65550 <? blen r then firstn (N.to_nat 65550) r else r).
+Definition short_consume (n : N) (r : bytes) : bytes := skipn (N.to_nat n) r.
+Definition max_msg : amsg :=
+  {| a_secs := 1; a_micros := 2; a_secu := (69, 67, 85, 49); a_htyp := 32; a_mcnt := 2;
+     a_ecu := (0, 0, 0, 0); a_sid := (0, 0, 0, 0); a_ts := 0; a_vmm := 0; a_noar := 0;
+     a_apid := (0, 0, 0, 0); a_ctid := (0, 0, 0, 0); a_payload := repeat 46 (N.to_nat 65531) |}.
+Definition tight_segs : list seg := [([], tiny_msg); ([], max_msg); ([], tiny_msg)].
+
+Lemma short_reader_contract :
+  (forall r, id (fst (short_fill r)) = id r /\ window_ok 65550 (id r) (snd (short_fill r))) /\
+  (forall r n, n <= blen (snd (short_fill r)) -> id (short_consume n (fst (short_fill r))) = skipn (N.to_nat n) (id r)).
+Proof.
+  split; [|reflexivity]. intros r. split; [reflexivity|]. unfold short_fill, window_ok, id. cbn [snd].
+  destruct (N.ltb_spec 65550 (blen r)) as [H|H].
+  - split; [exists (skipn (N.to_nat 65550) r); symmetry; apply firstn_skipn|]. left.
+    unfold blen in *. rewrite firstn_length. lia.
+  - split; [exists []; symmetry; apply app_nil_r|right; reflexivity].
+Qed.
+
+Definition short_run_summary (s : bytes) : option (list N * N * N) :=
+  match drain_gen bytes short_fill short_consume false (S (length s)) (S (length s)) (ist_new 0) s with
+  | Ok (ms, st, r') => Some (map m_index ms, i_processed st, blen r')
+  | _ => None
+  end.
+Definition tight_run_summary : option (list N * N * N) := short_run_summary (stream Storage tight_segs []).
+
+Theorem C01_buffered_low_mark_tight :
+  Forall (fun s => wf_amsg (snd s)) tight_segs /\ markers_only_at_starts Storage tight_segs [] /\
+  (* only message 0 is yielded; 23 bytes processed; the maximum-length message and its successor stay unread *)
+  tight_run_summary = Some ([0], 23, 16 + 65535 + 23) /\
+  map m_index (expect_list Storage 0 tight_segs) = [0; 1; 2].
+Proof.
+  split; [repeat constructor; vm_compute; discriminate|].
+  split; [apply markers_only_at_starts_lin_sound; vm_compute; reflexivity|].
+  split; [vm_compute; reflexivity|reflexivity].
 Qed.
 
 (* non-vacuity: three messages (timestamp+ecu+ext / plain / all optional parts, big endian), garbage on all
@@ -179,6 +267,10 @@ Print Assumptions C01_parse_storage_never_panics.
 Print Assumptions C01_parse_serial_never_panics.
 Print Assumptions C01_run_total.
 Print Assumptions C01_run_terminates.
+Print Assumptions C01_iter_recovers_all_any_reader.
+Print Assumptions C01_buffered_low_mark_tight.
+Print Assumptions C01_incomplete_storage_frame_stops.
+Print Assumptions C01_incomplete_storage_frame_witness.
 Print Assumptions C01_markers_check_sound.
 Print Assumptions C01_legacy_tiny_serial_refuted.
 Print Assumptions C01_nonvacuous.
